@@ -753,8 +753,63 @@ NodeMap(b)  == On("nodes") /\ (b \in {".", "(., .)"} \/ AllNodes(S)) /\ st' = Ex
 NodeFor(b)  == On("nodes") /\ AllNodes(S) /\ st' = ExNodeMap(S, b)        \* for $x in S return $x/BODY
 NodePath(b) == On("nodes") /\ AllNodes(S) /\ st' = ExNodePath(S, b)
 
+(* ---- predicates after an AXIS STEP and after a PARENTHESISED axis step (group "nodes").
+        `for $x in S return $x/BODY`, BODY = the step AXIS::NAMETEST[c][p] (form "step") or the same step in parentheses followed by [c][p] (form "paren").
+        XPath 3.3.2 / 3.2.1: the predicates of an axis step count positions along the axis (reverse axes: reverse
+        document order); a parenthesised expression is a SEQUENCE in document order, so EVERY predicate after the
+        parenthesis counts in document order.  The step result is in document order in both forms. ---- *)
+StepAxes  == {"ancestor-or-self", "ancestor", "preceding-sibling", "following-sibling"}
+IsRevAxis(ax) == ax # "following-sibling"
+ElemIds   == {1, 2, 4, 6}
+(* the elements on the axis from node d, in document order *)
+AxisOf(ax, d) ==
+  LET own == IF IsAttr(d) THEN d - 1 ELSE d
+      ids == CASE ax = "ancestor-or-self" -> (IF IsAttr(d) THEN {1, own} ELSE {1, d})
+               [] ax = "ancestor"         -> (IF IsAttr(d) THEN {1, own} ELSE IF d = 1 THEN {} ELSE {1})
+               [] ax = "preceding-sibling" -> (IF IsElemN(d) THEN {e \in {2, 4, 6} : e < d} ELSE {})
+               [] ax = "following-sibling" -> (IF IsElemN(d) THEN {e \in {2, 4, 6} : e > d} ELSE {})
+  IN SortIds(ids)
+StepConds == {"true()", "position() ge 2", "position() le 2", "position() ge 1"}
+StepPoss  == {"1", "2", "last()", "position() eq 1", "position() lt last()"}
+PredApply(L, c) ==
+  CASE c = "true()"               -> ExPredConst(L, <<Bool(TRUE)>>).s
+    [] c = "position() ge 1"      -> ExPredPos(L, "ge", <<IntV(1)>>).s
+    [] c = "position() ge 2"      -> ExPredPos(L, "ge", <<IntV(2)>>).s
+    [] c = "position() le 2"      -> ExPredPos(L, "le", <<IntV(2)>>).s
+    [] c = "position() eq 1"      -> ExPredPos(L, "eq", <<IntV(1)>>).s
+    [] c = "1"                    -> ExPredConst(L, <<IntV(1)>>).s
+    [] c = "2"                    -> ExPredConst(L, <<IntV(2)>>).s
+    [] c = "last()"               -> ExPredLast(L, "last").s
+    [] c = "position() lt last()" -> ExPredLast(L, "pos<last").s
+AxisPredsOf(form, ax, c, p, d) ==
+  LET doc == AxisOf(ax, d)
+      L   == IF form = "step" /\ IsRevAxis(ax) THEN Rev(doc) ELSE doc
+  IN DocOrder(PredApply(PredApply(L, c), p))
+ExAxisPreds(T, form, ax, c, p) == OK(Concat([i \in 1..Len(T) |-> AxisPredsOf(form, ax, c, p, T[i].q[1])]))
+AxisPreds(form, ax, c, p) == On("nodes") /\ AllNodes(S) /\ st' = ExAxisPreds(S, form, ax, c, p)
+
 (* ---- a range as the direct operand (only from the empty sequence: the action ignores S) ---- *)
 RangeFn(F, a, b) == On("range") /\ N = 0 /\ st' = ExRangeFn(F, ExRange(Tok(a, N), Tok(b, N)))
+(* ---- NEAR-INTEGER arguments (group "pos").  The argument is  a + off * eps : a grid value a (an integer or x.5)
+        plus an offset class off in {-1, 0, +1} of a TINY eps.  The model computes with eps = 1 / EpsDen; LawNear states
+        that the outcome is the same for every eps < 1/2 (EpsDens), so the binding may use any tiny concrete eps
+        (1e-10, 1e-12, 1e-13 as xs:decimal / xs:double literals or computed: the spelling sp, which the value must
+        not depend on).  E[n] does NOT round: a non-integer n selects nothing however close it is to a position;
+        fn:subsequence rounds (fn:round: 2.9999999999 -> 3, 2.5 - eps -> 2, 2.5 + eps -> 3). ---- *)
+EpsDen    == 1000
+EpsDens   == {3, 1000}
+NearSpells == IF GridName = "full" THEN {"dec10", "dec12", "dbl10", "dbl13", "calc", "calcdec"} ELSE {"dec10", "calc"}
+NearSpells3 == IF GridName = "full" THEN {"dec10", "dbl13", "calc"} ELSE {"calc"}
+NearType(sp) == IF sp \in {"dec10", "dec12", "calcdec"} THEN "dec" ELSE "dbl"
+NearPos   == IF GridName = "full" THEN {"0", "1", "2", "3", "len", "len+1"} ELSE {"1", "len"}
+NearHalf  == IF GridName = "full" THEN {"0.5", "1.5", "2.5"} ELSE {"1.5"}
+Offs      == {-1, 0, 1}
+NearV(a, off, den, t) == <<Item(t, "fin", QAdd(a[1].q, Norm(off, den)), <<>>)>>
+OnNear    == On("pos") /\ (GridName = "full" \/ TLCGet("level") = 1)
+PredNear(a, off, sp)    == OnNear /\ st' = ExPredConst(S, NearV(Tok(a, N), off, EpsDen, NearType(sp)))
+Subseq2Near(a, off, sp) == OnNear /\ st' = Subseq2Filter(S, NearV(Tok(a, N), off, EpsDen, NearType(sp)))
+Subseq3Near(a, off, b, offb, sp) == OnNear /\ GridName = "full" /\ st' = Subseq3Filter(S, NearV(Tok(a, N), off, EpsDen, NearType(sp)),
+                                                                   NearV(Tok(b, N), offb, EpsDen, NearType(sp)))
 (* ---- group "coll": form "default" = no collation argument, the parser's default collation is coll;
         "arg" = the collation URI as argument (default: codepoint); "fn" = default-collation() as argument ---- *)
 IndexOfC(v, coll, form) == On("coll") /\ st' = FnIndexOfC(S, Tok(v, N), coll)
@@ -767,6 +822,10 @@ Next ==
   \/ \E a \in PosToks : Subseq2(a)
   \/ \E a \in PosToks, b \in LenToks : Subseq3(a, b)
   \/ \E a \in PosToks, b \in (IF GridName = "full" THEN LenToks ELSE {"1.5", "INF"}) : SubseqPred(a, b)
+  \/ \E a \in NearPos, off \in Offs, sp \in NearSpells : PredNear(a, off, sp)
+  \/ \E a \in NearPos \cup NearHalf, off \in Offs, sp \in NearSpells3 : Subseq2Near(a, off, sp)
+  \/ \E a \in {"1", "2", "1.5", "2.5"}, off \in Offs, b \in {"1", "1.5"}, offb \in Offs, sp \in {"calc"} :
+         Subseq3Near(a, off, b, offb, sp)
   \/ \E a \in IntToks : Remove(a)
   \/ \E a \in IntToks, T \in InsSeqs : InsertBefore(a, T)
   \/ HeadOf \/ TailOf \/ Reverse
@@ -799,6 +858,7 @@ Next ==
   \/ \E b \in NodeBodies : NodeMap(b)
   \/ \E b \in {".", "..", "@k", "../n"} : NodeFor(b)
   \/ \E b \in {".", "..", "@k", "../n"} : NodePath(b)
+  \/ \E form \in {"step", "paren"}, ax \in StepAxes, c \in StepConds, p \in StepPoss : AxisPreds(form, ax, c, p)
   \/ \E F \in Consumers, inner \in Inners, R \in Readers : MapFocus(F, inner, R)
   \/ \E F \in Consumers, inner \in Inners, R \in Readers : ForFocus(F, inner, R)
   \/ \E F \in Consumers, inner \in {"[. gt 4]", "! (. + 1)"}, R \in Readers, k \in {"1", "2"} : PredFocus(F, inner, R, k)
@@ -833,6 +893,22 @@ LawSubseq ==
   /\ \A a \in IntArgs : ExPredConst(S, a) = Subseq3Filter(S, a, <<IntV(1)>>)        \* S[n] = subsequence(S, n, 1)
   /\ \A a \in IntArgs : ExPredPos(S, "le", a) = Subseq3Filter(S, <<IntV(1)>>, a)    \* S[position() le k]
   /\ \A a \in IntArgs : ExPredPos(S, "ge", a) = Subseq2Filter(S, a)
+(* near-integer arguments: E[n] is empty whenever the offset is not zero (no rounding, no tolerance), E[n + 0] is
+   E[n] whatever the numeric type; subsequence rounds the start (and the length); independent of eps *)
+LawNear ==
+  \A den \in EpsDens, t \in {"dec", "dbl"} :
+     /\ \A a \in {<<IntV(i)>> : i \in 0..(N + 1)}, off \in Offs :
+           LET v == NearV(a, off, den, t) IN
+           /\ (off # 0 => ExPredConst(S, v) = OK(<<>>))
+           /\ (off = 0 => ExPredConst(S, v) = ExPredConst(S, a))
+           /\ (off = 0 => ExPredConst(S, v) = OK(IF a[1].q[1] \in 1..N THEN <<S[a[1].q[1]]>> ELSE <<>>))
+           /\ Subseq2Filter(S, v) = Subseq2Filter(S, a)
+           /\ Subseq3Filter(S, v, <<IntV(1)>>) = ExPredConst(S, a)
+           /\ \A offb \in Offs : Subseq3Filter(S, v, NearV(<<IntV(1)>>, offb, den, t)) = ExPredConst(S, a)
+     /\ \A i \in 0..N, off \in Offs :
+           LET h == NearV(<<Dec(2 * i + 1, 2)>>, off, den, t) IN          \* i + 0.5 + off * eps
+           /\ ExPredConst(S, h) = OK(<<>>)
+           /\ Subseq2Filter(S, h) = Subseq2Filter(S, <<IntV(IF off < 0 THEN i ELSE i + 1)>>)
 LawReverse ==
   /\ FnReverse(FnReverse(S).s) = OK(S)
   /\ ExForIndex(S, "rev") = FnReverse(S)
@@ -942,13 +1018,26 @@ LawNodes ==
        /\ Len(p) <= Len(m)
        /\ ((\A i \in 1..(Len(m) - 1) : m[i].q[1] < m[i + 1].q[1]) => p = m)
        /\ ExNodeMap(S, ".") = OK(S) /\ Len(ExNodeMap(S, "(., .)").s) = 2 * N
+(* a forward axis: the parenthesis changes nothing; a reverse axis: [true()][1] is the nearest node in the step
+   form and the first node in document order in the parenthesised form, [true()][last()] the other way round *)
+LawAxisPreds ==
+  \A d \in {1, 2, 3, 4, 5, 6, 7}, ax \in StepAxes :
+     LET doc == AxisOf(ax, d)
+         n   == Len(doc) IN
+     /\ \A c \in StepConds, p \in StepPoss :
+           /\ (~IsRevAxis(ax) => AxisPredsOf("step", ax, c, p, d) = AxisPredsOf("paren", ax, c, p, d))
+           /\ (c \in {"true()", "position() ge 1"} => AxisPredsOf("paren", ax, c, p, d) = PredApply(doc, p))
+     /\ (n > 0 => /\ AxisPredsOf("paren", ax, "true()", "1", d) = <<doc[1]>>
+                  /\ AxisPredsOf("paren", ax, "true()", "last()", d) = <<doc[n]>>
+                  /\ (IsRevAxis(ax) => /\ AxisPredsOf("step", ax, "true()", "1", d) = <<doc[n]>>
+                                       /\ AxisPredsOf("step", ax, "true()", "last()", d) = <<doc[1]>>))
 NoNodesDep == LawDep
 NoNodes == \A i \in 1..N : S[i].t # "node"
 (* decided on every sequence that is the SOURCE of a transition (the last level is not expanded) *)
 Laws == (Usable /\ TLCGet("level") < MaxDepth) =>
-                  /\ LawSubseq /\ LawReverse /\ LawInsert /\ LawRemove /\ LawHeadTail /\ LawCardinality /\ LawFilter
+                  /\ LawSubseq /\ LawNear /\ LawReverse /\ LawInsert /\ LawRemove /\ LawHeadTail /\ LawCardinality /\ LawFilter
                   /\ ("iter" \in Groups => NoNodesDep)
-                  /\ ("nodes" \in Groups => LawNodes)
+                  /\ ("nodes" \in Groups => LawNodes /\ LawAxisPreds)
                   /\ ("focus" \in Groups => LawFocus)
                   /\ (NoNodes => LawQuantDual /\ LawSum /\ LawMinMax /\ LawIndexOf)   \* the laws about VALUES
 =============================================================================
